@@ -142,6 +142,21 @@ pub trait Scheme: 'static {
     }
 }
 
+/// a multivariate point: mostly random coordinates; one in eight coordinates is 0 or 1, and one point in eight is
+/// a vertex of the hypercube (tensors of such points have zero entries scattered through them)
+pub fn mv_point(rng: &mut Rng, nv: usize) -> Vec<Fr> {
+    let vertex = range(rng, 0, 7) == 0;
+    (0..nv)
+        .map(|_| {
+            if vertex || range(rng, 0, 7) == 0 {
+                if coin(rng) { Fr::one() } else { Fr::zero() }
+            } else {
+                Fr::rand(rng)
+            }
+        })
+        .collect()
+}
+
 fn lp_poly_ref<P: Polynomial<Fr>>(lp: &LabeledPolynomial<Fr, P>) -> &P {
     lp.polynomial()
 }
@@ -311,7 +326,7 @@ impl Scheme for Pst13 {
         }
     }
     fn rand_point(rng: &mut Rng, s: &Sizes) -> Vec<Fr> {
-        (0..s.num_vars.unwrap()).map(|_| Fr::rand(rng)).collect()
+        mv_point(rng, s.num_vars.unwrap())
     }
     fn is_constant(p: &MvPoly) -> bool {
         p.terms().iter().all(|(c, t)| c.is_zero() || t.is_constant())
@@ -345,7 +360,7 @@ impl Scheme for Hyrax {
         }
     }
     fn rand_point(rng: &mut Rng, s: &Sizes) -> Vec<Fr> {
-        (0..s.num_vars.unwrap()).map(|_| Fr::rand(rng)).collect()
+        mv_point(rng, s.num_vars.unwrap())
     }
     fn is_constant(p: &DenseML) -> bool {
         p.evaluations.iter().all(|e| *e == p.evaluations[0])
@@ -411,7 +426,7 @@ impl Scheme for MlLigero {
         sparse_ml_special(rng, s, kind)
     }
     fn rand_point(rng: &mut Rng, s: &Sizes) -> Vec<Fr> {
-        (0..s.num_vars.unwrap()).map(|_| Fr::rand(rng)).collect()
+        mv_point(rng, s.num_vars.unwrap())
     }
     fn is_constant(p: &SparseML) -> bool {
         sparse_ml_constant(p)
@@ -435,7 +450,7 @@ impl Scheme for Brakedown {
         sparse_ml_special(rng, s, kind)
     }
     fn rand_point(rng: &mut Rng, s: &Sizes) -> Vec<Fr> {
-        (0..s.num_vars.unwrap()).map(|_| Fr::rand(rng)).collect()
+        mv_point(rng, s.num_vars.unwrap())
     }
     fn is_constant(p: &SparseML) -> bool {
         sparse_ml_constant(p)
